@@ -194,6 +194,59 @@ def single_call(v: int, fail: bool, use_result_objects: bool) -> bool:
     return out == [v]
 
 
+def worker_contract(vals: List[int], fails: List[bool]) -> bool:
+    """
+    pre: 1 <= len(vals) <= 3 and len(fails) == len(vals)
+    post: _
+    """
+    # The consumer model above assumes: when task_queue.join() returns, every result is already in the result
+    # queue.  join() returns once task_done() was called for every task, so the real worker loop has to queue the
+    # result of a task BEFORE it marks the task done -- for every task, failing or not -- and must answer the
+    # shutdown sentinel with exactly one task_done and no result.
+    from mapproxy.util.async_ import ThreadWorker
+    ev = []
+
+    class TQ:
+        def __init__(self, items):
+            self.items = list(items)
+
+        def get(self, block=True):
+            assert self.items, 'worker asks for a task after the sentinel'
+            t = self.items.pop(0)
+            ev.append(('get', None if t is None else t[0]))
+            return t
+
+        def task_done(self):
+            ev.append(('task_done', None))
+
+    class RQ:
+        def put(self, item):
+            ev.append(('put', item[0], item[1]))
+
+    def f(i):
+        if fails[i]:
+            raise Boom(i)
+        return vals[i]
+    w = ThreadWorker.__new__(ThreadWorker)
+    w.base_config = None
+    w.task_queue = TQ([(i, f, (i,)) for i in range(len(vals))] + [None])
+    w.result_queue = RQ()
+    w.run()
+    ok = True
+    pos = 0
+    for i in range(len(vals)):
+        ok = ok and len(ev) >= pos + 3 and ev[pos] == ('get', i) and ev[pos + 1][0] == 'put' and ev[pos + 1][1] == i
+        if ok:
+            r = ev[pos + 1][2]
+            if fails[i]:
+                ok = ok and isinstance(r, tuple) and r[0] is Boom and r[1].args == (i,)
+            else:
+                ok = ok and r == vals[i]
+            ok = ok and ev[pos + 2] == ('task_done', None)
+        pos += 3
+    return ok and ev[pos:] == [('get', None), ('task_done', None)]
+
+
 def twin_order(perm: List[int], vals: List[int], fails: List[bool], k: int) -> bool:
     """
     pre: 2 <= len(perm) <= 4 and len(vals) == len(perm) and len(fails) == len(perm)
